@@ -87,12 +87,24 @@ def run(ctx):
             ctx.broken_build("harness-run", out)
         else:
             stats = json.loads(out.strip().splitlines()[-1])
-            rc, res, raw = V.coq_eval(ctx.rundir / "cases_C13.v", timeout=3000)
             cases = json.load(open(ctx.rundir / "cases_C13.json"))
-            if rc != 0 or "r_bad_model" not in res or "r_bad_monitor" not in res or "r_bad_namecases" not in res:
-                ctx.broken_build("coq-eval of observed cases", raw)
-            else:
-                evaluated = True
+            # one coqc process per shard (bounded memory), a few at a time; indices are offset into `cases`
+            from concurrent.futures import ThreadPoolExecutor
+            shards = stats.get("shards", [])
+            with ThreadPoolExecutor(max_workers=4) as ex:
+                outs = list(ex.map(lambda k: V.coq_eval(ctx.rundir / ("cases_C13_%03d.v" % k), timeout=3000), range(len(shards))))
+            evaluated = bool(shards)
+            if not shards:
+                ctx.broken_build("harness produced no cases", out)
+            for k, (rc, r, raw) in enumerate(outs):
+                if rc != 0 or "r_bad_model" not in r or "r_bad_monitor" not in r or (k == 0 and "r_bad_namecases" not in r):
+                    ctx.broken_build("coq-eval of observed cases (shard %d)" % k, raw)
+                    evaluated = False
+                    break
+                for name, idxs in r.items():
+                    if isinstance(idxs, list):
+                        res.setdefault(name, [])
+                        res[name] += [i + (shards[k][0] if name != "r_bad_namecases" else 0) for i in idxs]
     bad_model = res.get("r_bad_model", []) if evaluated else []
     bad_mon = res.get("r_bad_monitor", []) if evaluated else []
     reported = set()
@@ -111,7 +123,8 @@ def run(ctx):
                                              "monitor": "h_%s (coq/theories/Replica/Check.v)" % clause},
                                        "scaling: %s; %d of %d histories; first: kind=%s %s"
                                        % (what, len(res.get(rname, [])), len(cases), cases[i]["kind"], first_diff(cases[i])))
-        rest = [i for i in bad_mon if i not in reported]
+        in_clause = set(i for _, r, _ in CLAUSES for i in res.get(r, []))
+        rest = [i for i in bad_mon if i not in in_clause]
         if rest:
             i = rest[0]
             ctx.violation({"case": view(cases[i]), "cases": [cases[i]], "failing_case_indices": rest[:50],
